@@ -4,11 +4,11 @@ NOT_APPLICABLE = {}
 R1NOTE = 'Trusted: the independent reference ES5 front end harness/ref_es5.py (validated at the start of every run against trees known by construction, and on the repository test snippets); the narrow neutralisers/predicates of listed findings in harness/findings.py.'
 CHECKS = {
  'C03': dict(
-    text='Differential against an independently written ES5.1 lexer + recursive-descent parser over (i) grammar-derived programs whose tree is known by construction, under four layout regimes, (ii) all token strings up to length 3 (quick) / 4 (thorough) over a 29-token alphabet (exhaustive for that bound), (iii) single-token mutations of derived programs and of the repository snippets. Acceptance is compared in both directions and trees structurally. Sampled exploration beyond the enumerated part.',
+    text='Differential against an independently written ES5.1 lexer + recursive-descent parser over (i) grammar-derived programs whose tree is known by construction, under four layout regimes, (ii) all token strings up to length 3 (quick) / 4 (thorough) over a 29-token alphabet (exhaustive for that bound), (iii) single-token and subtree mutations of derived programs and of the repository snippets, (iv) exhaustive sweeps of identifier characters and of every run of up to 4 (thorough: 5) operator characters between two identifiers. Acceptance is compared in both directions and trees structurally. Sampled exploration beyond the enumerated part.',
     note=R1NOTE,
     technique='differential testing against a reference parser: Hypothesis grammar-based generation + exhaustive short-string enumeration + mutation'),
  'C10': dict(
-    text='Exhaustive enumeration of a symmetric integer range plus all power-of-32 boundaries up to 400 bits, plus Hypothesis-generated integers, lists, mappings structures and grammar-built canonical VLQ strings; round trips at all three levels and a differential against an independent codec. Exhaustive for the stated range, sampled beyond it.',
+    text='Exhaustive enumeration of a symmetric integer range plus all power-of-32 and power-of-2 boundaries up to 400 bits, plus Hypothesis-generated integers, lists, mappings structures and grammar-built canonical VLQ strings; round trips at all three levels and a differential against an independent codec. Exhaustive for the stated range, sampled beyond it.',
     note='Trusted: the 20-line reference codec in harness/ref_vlq.py (validated on worked examples at start of each run).',
     technique='exhaustive enumeration + Hypothesis property-based testing; round-trip and differential oracle'),
 }
@@ -22,7 +22,7 @@ CHECKS.update({
     note=R1NOTE,
     technique='differential testing against a goal-symbol-driven reference lexer/parser: exhaustive product enumeration + Hypothesis'),
  'C06': dict(
-    text='Generated slash-free lexical soup (must lex; compared token by token with the reference lexer) and grammar-derived programs; conservation (substring, order, gaps only layout, tiling), location (line/column vs reference counting of LF/CR/CRLF/LS/PS, also inside multi-line tokens) and classification (longest match, keyword only on exact match).',
+    text='Generated slash-free lexical soup (must lex; compared token by token with the reference lexer) every run of up to 4 (thorough: 5) operator characters (exhaustive), grammar-derived programs, and histories of lexer objects each run in an interpreter of its own (what one lexer read must not show in the positions another reports); conservation (substring, order, gaps only layout, tiling), location (line/column vs reference counting of LF/CR/CRLF/LS/PS, also inside multi-line tokens) and classification (longest match, keyword only on exact match).',
     note='Trusted: reference lexer of harness/ref_es5.py and harness/positions.py. Inputs on which the lexer raises are outside the quantifier and are counted, not judged.',
     technique='Hypothesis property-based testing with invariant + differential oracle'),
  'C12': dict(
@@ -66,7 +66,7 @@ CHECKS.update({
     note='Trusted: harness/ref_sourcemap.py (decoder from the V3 text) and harness/ref_vlq.py, self-tested at the start of each run; the generated-position tracker in props/c09.py.',
     technique='Hypothesis property-based testing (synthetic stream generator) + round trip through an independent decoder'),
  'C13': dict(
-    text='Grammar-derived programs rendered with comments of all kinds in Hypothesis-chosen gaps: acceptance and tree with/without capture, verbatim/located/ordered/unique attached comments against the reference lexer\'s comment list, and the print -> re-parse-with-capture round trip (same tree by calmjs and by the reference parser, same comment sequence).',
+    text='Grammar-derived programs rendered with comments of all kinds in Hypothesis-chosen gaps: acceptance and tree with/without capture, verbatim/located/ordered/unique attached comments against the reference lexer\'s comment list, and the print -> re-parse-with-capture round trip (same tree by calmjs and by the reference parser, same comment sequence); the same for a small pool of programs in interpreters of their own whose first rendering of comments went through another printer.',
     note=R1NOTE,
     technique='metamorphic (capture on/off) + round-trip property-based testing with Hypothesis'),
 })
